@@ -544,6 +544,7 @@ def gen_invivo_ops(rng, n_modules=None, size=None, p_history=0.35, subs=("run", 
             ops = [{"op": "file", "path": p_, "content": prev[p_] if rng.random() < 0.25 else
                     rng.choice(["x = 1\n", "def only(alpha):\n    return alpha\n", "VALUE = source()\n"])} for p_ in sorted(prev)]
     ops.append({"op": "run", "lang": lang, "history": history, "plugin": rng.random() < 0.5, "sub": rng.choice(list(subs)),
+                "debug": rng.random() < 0.2,           # -d without -q: the debug code paths run (and print) too
                 "flags": sorted(set(rng.sample(["--enable-p2", "--nomock", "--graph"], rng.randint(0, 2)))),
                 "max_rows": rng.choice([1, 3, 8, 20, 60, 400000]),
                 "caps": {"LRU_CACHE_CAPACITY": rng.choice([1, 2, 3, 20]), "BUNDLE_CACHE_CAPACITY": rng.choice([1, 2]),
@@ -596,7 +597,10 @@ def run_ops(ops, timeout=240):
                         "            return er.EventHandlerReturnKind.UNPROCESSED\n"
                         "        return passive\n")
             extra_flags = ["-e", pl]
+        if run.get("debug"):
+            extra_flags = extra_flags + ["-d"]
         argv = lianrun.build_argv({"sub": run.get("sub", "run"), "lang": run.get("lang", "python"), "force": True, "workspace": os.path.join(B, "ws"),
+                                   "quiet": not run.get("debug"),
                                    "inputs": [proj], "flags": list(run.get("flags", [])) + extra_flags}, ctx["settings"])
 
         def before_run(M):
@@ -648,7 +652,7 @@ def run_ops(ops, timeout=240):
             else:
                 # the same project once more, in the same interpreter, into another workspace
                 ws2, in2 = os.path.join(B, "ws2"), proj
-            argv2 = lianrun.build_argv({"sub": run.get("sub", "run"), "lang": run.get("lang", "python"), "force": True,
+            argv2 = lianrun.build_argv({"sub": run.get("sub", "run"), "lang": run.get("lang", "python"), "force": True, "quiet": not run.get("debug"),
                                         "workspace": ws2, "inputs": [in2], "flags": list(run.get("flags", [])) + extra_flags},
                                        ctx["settings"])
         out = lianrun.run_forked(ctx["M"], argv, B, os.path.join(B, "report.json"), os.path.join(B, "stdio.txt"),
@@ -662,6 +666,9 @@ def run_ops(ops, timeout=240):
             except OSError:
                 tail = ""
             raise RuntimeError("in-vivo child failed outside the analysis: " + tail)
+        if run.get("debug"):
+            rep.setdefault("stats", {})
+            rep["stats"]["debug_run"] = 1
         if hist:
             rep.setdefault("stats", {})
             rep["stats"]["history_run_" + str(hist_status)] = 1
